@@ -8,7 +8,7 @@ RULE = ("11 partitioners x formats list/array/dict(str,int)/names+valueof: bound
         "(rotating subset in the quick tier; complete greedy with every one of its 16 switch vectors x 5 objectives on a rotating subset), structured random "
         "lists (zeros, all-equal, k > n, values up to 2^48) with n <= 9 (exact searches n <= 8, dp/ilp n <= 7). Non-trivial: >= 3 items, >= 2 bins, not all "
         "values equal. Distinct by (port, params).")
-EXPLANATION = ("prtpy.partition(..., PartitionAndSumsTuple) compared with the model (multiset of (sum, multiset of values); dp: objective value; ilp/multifit: judged only) "
+EXPLANATION = ("prtpy.partition(..., PartitionAndSumsTuple) compared with the model (multiset of (sum, multiset of values); dp: objective value; ilp: judged only) "
                "and judged by the verified checker is_partition_b (multifit: at most k bins). Theorems C01_*: the model returns a partition for ALL inputs.")
 ASSUMPTIONS = ["non-negative integer values, total below 2^53; ILP: values <= 200"]
 CASE_TIMEOUT = 120
@@ -33,7 +33,8 @@ def mk(rng, a, k, vals, fam, fmt=None):
         kw = {"objective": rng.choice([[0, 0], [1, 0], [2, 0]])}
         cmp = None
     elif a == "multifit":
-        cmp = None
+        if rng.random() < 0.3:
+            kw = {"iterations": rng.choice([0, 1, 2, 3, 5, 17])}
     elif a == "cbldm":
         k = 2
         if rng.random() < 0.5:
@@ -85,6 +86,7 @@ def units(rng, tier):
                 kk = rng.choice([3, 4, 5])
             if a in ("ckk", "snp", "rnp") and kk > 5:
                 v = v[:6]
+                kk = min(kk, 7)      # all_combinations enumerates k! permutations
             us.append(mk(rng, a, kk, v, fam))
     return us
 
